@@ -176,15 +176,17 @@ DIterLH(it, X, p, c, env, lo, hi) ==
          \* a configuration that cannot be computed is a failure of the configured parser, right where it starts
          IF o = "cfgreptry" /\ DCtxNum(c) > 2 THEN Fail({EvUser(X, p, p, p, "tc")})
          ELSE DRep(it[2][2], lo, hi, X, p, c, env, 0)
+    \* p.into_iter(): the items are the elements of p's output, in order; the input moves by what p consumed
+    [] o = "intoiter" -> LET r == D(it[2], X, p, c, env) IN IF r.ok THEN [r EXCEPT !.val = @[2]] ELSE r
     [] o = "enum" ->
          IF Op(it[2]) = "rep"
          THEN LET r == DRep(it[2][2], lo, hi, X, p, c, env, 0) IN
               IF r.ok THEN [r EXCEPT !.val = [i \in DOMAIN r.val |-> VP(VI(i - 1), r.val[i])]] ELSE r
          ELSE DSep(<<"sep", it[2][2], it[2][3], lo, hi, it[2][6], it[2][7]>>, X, p, c, env, 0, TRUE)
 (* a repetition configured from context matches exactly as the statically configured one (C15) *)
-ItLo(it, c) == CASE Op(it) \in {"cfgrep", "cfgrepmin", "cfgreptry"} -> DCtxNum(c) [] Op(it) = "cfgrepmax" -> it[2][3] [] Op(it) = "enum" -> it[2][IF Op(it[2]) = "rep" THEN 3 ELSE 4]
+ItLo(it, c) == CASE Op(it) = "intoiter" -> 0 [] Op(it) \in {"cfgrep", "cfgrepmin", "cfgreptry"} -> DCtxNum(c) [] Op(it) = "cfgrepmax" -> it[2][3] [] Op(it) = "enum" -> it[2][IF Op(it[2]) = "rep" THEN 3 ELSE 4]
                  [] Op(it) = "rep" -> it[3] [] Op(it) = "sep" -> it[4]
-ItHi(it, c) == CASE Op(it) \in {"cfgrep", "cfgrepmax", "cfgreptry"} -> DCtxNum(c) [] Op(it) = "cfgrepmin" -> it[2][4] [] Op(it) = "enum" -> it[2][IF Op(it[2]) = "rep" THEN 4 ELSE 5]
+ItHi(it, c) == CASE Op(it) = "intoiter" -> Inf [] Op(it) \in {"cfgrep", "cfgrepmax", "cfgreptry"} -> DCtxNum(c) [] Op(it) = "cfgrepmin" -> it[2][4] [] Op(it) = "enum" -> it[2][IF Op(it[2]) = "rep" THEN 4 ELSE 5]
                  [] Op(it) = "rep" -> it[4] [] Op(it) = "sep" -> it[5]
 DIter(it, X, p, c, env) == DIterLH(it, X, p, c, env, ItLo(it, c), ItHi(it, c))
 
@@ -396,6 +398,8 @@ D(g, X, p, c, env) ==
              hi0 == ItHi(it, c)
              r == DIterLH(it, X, p, c, env, Min2(ItLo(it, c), N), IF hi0 = Inf THEN N ELSE Min2(hi0, N))
          IN IF ~r.ok THEN r
+            \* an iterator with items of its own (into_iter) is simply asked N times: the first N elements
+            ELSE IF Op(it) = "intoiter" /\ Len(r.val) >= N THEN [r EXCEPT !.val = VA(SubSeq(@, 1, N))]
             ELSE IF Len(r.val) = N THEN [r EXCEPT !.val = VA(@)]
             \* too few items: a failure of its own at the position where the N-th item was wanted
             ELSE Fail(r.fl \cup {EvTok(X, r.end, {})})
